@@ -343,7 +343,7 @@ Proof.
   intros k l r. unfold opt_rel, so_rel, abso.
   destruct k as [|[|[|[|[|k]]]]];
     destruct (has_value l) eqn:El; destruct (has_value r) eqn:Er; cbn [negb andb Bool.eqb rbind];
-    try reflexivity; deref_both l r El Er; reflexivity.
+    try reflexivity; deref_both l r El Er; try rewrite rel_z_ne; reflexivity.
 Qed.
 
 Theorem opt_rel_null_ok : forall k s, opt_rel_null k s = so_rel_null k (abso s).
@@ -353,15 +353,18 @@ Proof.
 Qed.
 
 Lemma rel_z_eq_sym : forall x y, rel_z 0 x y = rel_z 0 y x.
-Proof. intros x y. cbn [rel_z]. apply Z.eqb_sym. Qed.
+Proof.
+  intros x y. unfold rel_z. rewrite (Bool.orb_comm (is_nan y)).
+  destruct (is_nan x || is_nan y); [reflexivity|]. cbn [rel_tot]. apply Z.eqb_sym.
+Qed.
 
 Theorem opt_rel_val_ok : forall k rev s v, opt_rel_val k rev s v = Ok (so_rel_val k rev (abso s) v).
 Proof.
   intros k rev s v. unfold opt_rel_val, so_rel_val, abso.
   destruct k as [|[|[|[|[|k]]]]]; destruct rev; destruct (has_value s) eqn:E; cbn [rbind];
-    try reflexivity; rewrite (opt_deref_ok s E); cbn [rbind]; try reflexivity.
+    try reflexivity; rewrite (opt_deref_ok s E); cbn [rbind]; try rewrite rel_z_ne; try reflexivity.
   - rewrite rel_z_eq_sym. reflexivity.
-  - cbn [rel_z]. rewrite Z.eqb_sym. reflexivity.
+  - rewrite rel_z_eq_sym. reflexivity.
 Qed.
 
 (* has_value / operator bool / operator* agree with the tagged value *)
